@@ -241,7 +241,7 @@ impl G {
             .into()
     }
     pub fn expr(&mut self, d: usize) -> String {
-        let k = if d == 0 { self.r.below(3) } else { self.r.below(30) };
+        let k = if d == 0 { self.r.below(3) } else { self.r.below(32) };
         match k {
             0 => self.ident(),
             1 | 2 => self.lit(),
@@ -429,6 +429,41 @@ impl G {
             27 => {
                 self.used.push("call-content");
                 format!("{}[{}][{}]", self.ident(), self.markup_inline(d - 1), self.markup_inline(d - 1))
+            }
+            31 => {
+                // operator chains: three to five operands joined by operators of one precedence class
+                // (so that they form one chain), every sequence of operators of the class
+                self.used.push("op-chain");
+                let classes: [&[&str]; 5] = [
+                    &["in", "not in", "==", "!=", "<", "<=", ">", ">="],
+                    &["+", "-"],
+                    &["*", "/"],
+                    &["and"],
+                    &["or"],
+                ];
+                let ops = classes[self.r.below(classes.len())];
+                let n = 3 + self.r.below(3);
+                let mut s = self.expr(d.min(2) - 1);
+                for _ in 1..n {
+                    let op = *self.r.pick(&ops.iter().collect::<Vec<_>>());
+                    s += &format!("{} {} {}{}", self.t(), op, self.t(), self.expr(d.min(2) - 1));
+                }
+                s
+            }
+            30 => {
+                // the compact `ident.field.field(args)` layout: plain identifiers, one call, last;
+                // the links laid out in the source in every way (tight, padded, one per line, deep)
+                self.used.push("plain-chain");
+                let gap: &str = self.r.pick(&["", "", " ", "\n  ", "\n        ", "\n                "]);
+                let mut s = self.ident();
+                for _ in 0..(2 + self.r.below(3)) {
+                    s += gap;
+                    s += ".";
+                    s += &self.ident();
+                }
+                let n = 1 + self.r.below(4);
+                let args: Vec<String> = (0..n).map(|_| self.expr(d - 1)).collect();
+                format!("{}({})", s, args.join(", "))
             }
             28 => {
                 self.used.push("assign");
@@ -689,13 +724,18 @@ impl G {
                 }
                 6 => {
                     if d > 0 {
-                        s += &format!(
-                            "mat({}, {}; {}, {})",
-                            self.math(0),
-                            self.math(0),
-                            self.math(0),
-                            self.math(0)
-                        );
+                        // cells: plain math, bare hashed code, nested 2-D calls
+                        let mut cell = |g: &mut G| -> String {
+                            match g.r.below(8) {
+                                0 => "#a".into(),
+                                1 => "#f(x)".into(),
+                                2 => "mat(1; 2)".into(),
+                                3 => "mat(a, b; c, d)".into(),
+                                _ => g.math(0),
+                            }
+                        };
+                        let (a, b, c, e) = (cell(self), cell(self), cell(self), cell(self));
+                        s += &format!("mat({}, {}; {}, {})", a, b, c, e);
                     }
                 }
                 7 => {
@@ -714,6 +754,20 @@ impl G {
                 }
                 11 => s += self.r.pick(&["[a, b]", "{x}", "|y|", "lr((a))"]),
                 12 => s += self.r.pick(&["√x", "x_(i j)", "a^(-1)", "vec(1, 2)", "f(x, y)", "cases(a &\"if\" b, c)", "#f(x)[c]", "#g[a][b]", "vec(#f(x)[c], b)", "mat(#g[a][b]; #h(1, 2))", "#f(x)"]),
+                14 => {
+                    // attachments with every kind of operand in every position, blanks before the marks
+                    let ops = ["x", "#x", "#x.y", "(a b)", "#f(x)", "#true", "#none", "sum", "a'", "\"t\"", "#(1)"];
+                    let sp = ["", " ", ""];
+                    let mut t = String::from(self.r.pick(&ops));
+                    let first_sub = self.r.below(2) == 0;
+                    for k in 0..(1 + self.r.below(2)) {
+                        t += self.r.pick(&sp);
+                        t += if (k == 0) == first_sub { "_" } else { "^" };
+                        t += self.r.pick(&sp);
+                        t += self.r.pick(&ops);
+                    }
+                    s += &t;
+                }
                 13 => s += self.r.pick(&["#x;", "1/#x;", "x_#y;", "√#x;", "#x _1", "#x.y _1", "mat(a #x ; b)", "mat(#x;; b)", "mat(n: #x ; b)", "#x;^2", "a_\\ ", "{ \\ ", "#(x)", "#(1) x", "vec(a, #x)", "f(#x ; y)"]),
                 _ => s += "y",
             }
@@ -931,6 +985,10 @@ pub const TEMPLATES: &[&str] = &[
     "$ (¦\n  a  +   b\n      +    c¦\n) $\n",
     "$ sqrt(¦a  b¦) mat(¦1,¦ 2;¦ 3,¦ 4¦) $\n",
     "#f(¦\n  1,\n  2¦\n\n  ,¦\n\n)\n",
+    "#let x =¦ (1   +   2)\n",
+    "#for (a,   b) in¦ (x  ,y) { a }\n",
+    "#(¦(  1+2  ))¦ #let (a,¦ (b  ,c)) = d\n",
+    "#let f(¦(x)) =¦ (x   *   2)\n",
     "text #f[- a¦\n          b¦] more¦\n",
     "#f[- a¦ \\ ¦]\n",
     "#[+ a¦\n   b¦]¦ #[/ T: d¦\n  e]\n",
@@ -1179,7 +1237,14 @@ pub fn imp_case(idx: u64) -> (String, Cfg) {
             _ => {}
         }
         s += ": ";
-        let par = r.below(2) == 0;
+        // trivia between the colon and the items (a line comment there needs parentheses around the items)
+        let after_colon = r.below(12);
+        let par = r.below(2) == 0 || after_colon == 1;
+        match after_colon {
+            0 => s += "/* k */ ",
+            1 => s += "// k\n  ",
+            _ => {}
+        }
         let ml = par && r.below(2) == 0;
         let cm = r.below(5) == 0;
         if par {
@@ -1188,16 +1253,25 @@ pub fn imp_case(idx: u64) -> (String, Cfg) {
                 s += "\n  ";
             }
         }
-        let n = 1 + r.below(6);
+        // a parenthesised list may hold no item at all, only comments (all names commented out)
+        let n = if par && r.below(8) == 0 { 0 } else { 1 + r.below(6) };
+        if par && (n == 0 || r.below(8) == 0) {
+            s += r.pick(&["/* lead */ ", "// lead\n  ", "", "// a, b,\n  // c,\n  ", "/* a, b */"]);
+        }
         for i in 0..n {
             let nm = r.pick(&names);
             s += nm;
             if r.below(5) == 0 {
-                s += ".";
+                // the links of a path and the renaming may be spaced in any way in the source
+                s += r.pick(&[".", ".", ".", " .", ". ", " . ", "  .  "]);
                 s += r.pick(&names);
+                if r.below(4) == 0 {
+                    s += r.pick(&[".", ". ", " ."]);
+                    s += r.pick(&names);
+                }
             }
             if r.below(3) == 0 {
-                s += " as ";
+                s += r.pick(&[" as ", " as ", "  as  ", " as  "]);
                 s += r.pick(&names);
             }
             if cm && par && r.below(3) == 0 {
@@ -1235,7 +1309,7 @@ pub fn imp_case(idx: u64) -> (String, Cfg) {
 pub const PERF_FAMILIES: &[&str] = &[
     "call", "chain", "array", "dict", "closure", "block", "content", "cond", "mathdelim", "list", "paren", "binary",
     "dotcall", "mathcall", "strong", "unary", "letdestruct", "args-content", "plainchain", "closure-call", "show-chain",
-    "table-nest", "grid-cell", "mat-nest", "set-content", "dict-closure",
+    "table-nest", "grid-cell", "mat-nest", "set-content", "dict-closure", "closure-unary", "closure-field", "for-binary", "closure-stmt-binary",
 ];
 pub fn perf_case(fam: &str, d: usize) -> String {
     let rep = |o: &str, c: &str, core: &str| -> String {
@@ -1306,6 +1380,10 @@ pub fn perf_case(fam: &str, d: usize) -> String {
         "closure-call" => format!("#{}\n", rep("f(x => g.h.map(", "))", "x")),
         "show-chain" => format!("#show: {}\n", rep("a.b.with(c.d.e(", "))", "1")),
         "letdestruct" => format!("#let {} = y\n", rep("(a, ", ")", "b")),
+        "closure-unary" => format!("#{}\n", rep("f(x => -", ")", "x")),
+        "closure-field" => format!("#{}\n", rep("f(x => g(", ").y)", "x")),
+        "for-binary" => format!("#{}\n", rep("for i in a + { ", " } { 1 }", "b")),
+        "closure-stmt-binary" => format!("#{}\n", rep("{ let f = x => 1 + ", " }", "2")),
         "table-nest" => format!("#{}\n", rep("table(columns: 1, ", ")", "[x]")),
         "grid-cell" => format!("#{}\n", rep("grid(columns: 2, [a], [#", "])", "x")),
         "mat-nest" => format!("${}$\n", rep("mat(1, ", "; 2)", "x")),
